@@ -21,6 +21,8 @@ pub struct Log {
     pub inv: usize,
     pub fail_at: Option<usize>,
     pub full: bool,
+    /// element events carry the attribute count only (pathological shapes: the cost measured is the library's)
+    pub light: bool,
 }
 pub type SLog = Arc<Mutex<Log>>;
 
@@ -31,6 +33,7 @@ pub fn new_log(fail_at: Option<usize>, full: bool) -> SLog {
         inv: 0,
         fail_at,
         full,
+        light: false,
     }))
 }
 
@@ -300,8 +303,8 @@ fn on_element<H: HandlerTypes>(
     log: &SLog,
 ) -> HandlerResult {
     let (inv, must_fail, sink_len) = begin_inv(log);
-    let full = log.lock().unwrap().full;
-    let mut ev = el_snapshot(el, full);
+    let (full, light) = { let l = log.lock().unwrap(); (l.full, l.light) };
+    let mut ev = if light { json!({"nattrs": el.attributes().len()}) } else { el_snapshot(el, full) };
     ev["e"] = json!("ev");
     ev["k"] = json!("el");
     ev["h"] = json!(hid);
@@ -311,7 +314,7 @@ fn on_element<H: HandlerTypes>(
     let (ops, fail) = apply_el_ops(el, script, log, hid);
     if !ops.is_empty() {
         ev["ops"] = json!(ops);
-        ev["post"] = el_snapshot(el, false);
+        if !light { ev["post"] = el_snapshot(el, false); }
     }
     ev["fail"] = json!(must_fail || fail);
     log.lock().unwrap().tl.push(ev);
@@ -816,15 +819,18 @@ macro_rules! mk_run {
             }
             if failed {
                 if opts.poke_after_error {
-                    push(json!({"e":"call","op":"write","b":[120]}));
-                    let r = catch_unwind(AssertUnwindSafe(|| rw.write(b"x")));
-                    let res = match &r {
-                        Ok(Ok(())) => "ok".to_string(),
-                        Ok(Err(e)) => err_kind(e).to_string(),
-                        Err(_) => "panic".to_string(),
-                    };
-                    let sl = log.lock().unwrap().sink_len;
-                    push(json!({"e":"ret","res":res,"sl":sl,"poke":true}));
+                    // any further use of a failed rewriter: an empty write, then a non-empty one
+                    for poke in [&b""[..], &b"x"[..]] {
+                        push(json!({"e":"call","op":"write","b":poke}));
+                        let r = catch_unwind(AssertUnwindSafe(|| rw.write(poke)));
+                        let res = match &r {
+                            Ok(Ok(())) => "ok".to_string(),
+                            Ok(Err(e)) => err_kind(e).to_string(),
+                            Err(_) => "panic".to_string(),
+                        };
+                        let sl = log.lock().unwrap().sink_len;
+                        push(json!({"e":"ret","res":res,"sl":sl,"poke":true}));
+                    }
                 }
                 // dropping a poisoned rewriter must be silent
                 let _ = catch_unwind(AssertUnwindSafe(move || drop(rw)));
@@ -860,6 +866,7 @@ pub fn run(cfg: &Value, input: &[u8], cuts: &[usize], opts: &RunOpts) -> Vec<Val
     let fail_at = cfg.get("fail_at").and_then(|x| x.as_u64()).map(|x| x as usize);
     let full = cfg.get("full").and_then(|x| x.as_bool()).unwrap_or(false);
     let log = new_log(fail_at, full);
+    log.lock().unwrap().light = cfg.get("light").and_then(|x| x.as_bool()).unwrap_or(false);
     if opts.send {
         run_send(cfg, input, cuts, opts, &log);
     } else {
